@@ -78,14 +78,18 @@ CHECKS = {
                  "theorem needs the canonical-link hypothesis of C09 and is not proved yet; FollowPaths and nested filter stacks are not generated yet. Known finding F5."),
     },
     "C20": {
-        "text": ("Lean theorems (unbounded): the varint codec round-trips every 64-bit value (varint_roundtrip); any sequence of messages framed with a 4-byte "
-                 "big-endian length is read back identical and in order, independent of fragmentation (frames_roundtrip). The generated UnmarshalVT of Stat and "
-                 "Packet (varint loops with overflow/EOF exits, wire-type checks, map entries, Skip, unknown fields) is transcribed in Lean with every read "
-                 "bounds-checked (outcome panic) and run against the Go decoder on mutated encodings and raw bytes (value-or-error equality); values go through "
-                 "both codecs in both directions; packets go through util.ProtoStream with fragmenting readers, aliasing and allocation monitors."),
-        "note": ("Trusted: Lean kernel + standard axioms. The full stat_roundtrip theorem over the transcribed decoder is not proved yet (round trip is checked "
-                 "by execution on generated values); 'never aliases' and 'never over-allocates' are runtime facts observed by the harness monitors. Known "
-                 "finding F17 (non-UTF-8 names vs the generic runtime) is listed in known_findings.json."),
+        "text": ("Lean theorems (unbounded) about the TRANSCRIBED generated code: unmarshalStat (marshalStat s) = ok s for every well-formed Stat "
+                 "(stat_roundtrip: uint32/int64 field ranges incl. negative sizes, arbitrary byte strings as names, distinct xattr keys; tag dispatch, wire-type "
+                 "and bounds checks, nested map-entry loop, 64-bit shift/OR varint reader with overflow and EOF exits all inside the proof), "
+                 "unmarshalPacket (marshalPacket p) = ok p with the nested optional Stat (packet_roundtrip), readVar_roundtrip, varint_roundtrip; any sequence of "
+                 "messages framed with a 4-byte big-endian length is read back identical and in order, independent of fragmentation (frames_roundtrip). "
+                 "Correspondence: the transcription is run against the Go decoder on mutated encodings and raw bytes (value-or-error equality, every read "
+                 "bounds-checked with outcome 'panic'); values go through the hand-optimised and the generic codec in both directions; packets go through "
+                 "util.ProtoStream with fragmenting readers, aliasing and allocation monitors."),
+        "note": ("Trusted: Lean kernel + standard axioms; the transcription of *_vtproto.pb.go is tied to the code by the wirebytes/wirevals suites, not by a "
+                 "translator. 'Never panics on arbitrary bytes' is decided by execution of the bounds-checked transcription and the Go decoder on the same bytes, "
+                 "not yet by a theorem; 'never aliases' and 'never over-allocates' are runtime facts observed by the harness monitors. Known finding F17 "
+                 "(non-UTF-8 names vs the generic runtime) is listed in known_findings.json."),
     },
     "C19": {
         "text": ("Lean theorems (unbounded): the chunked listing buffer flattens to the concatenation of its frames for every chunk capacity and frame size "
